@@ -133,12 +133,16 @@ FORBIDDEN = re.compile(r"\b(Admitted|admit|Axiom|Parameter|Conjecture|Admit Obli
                        r"Unset Universe Checking|type-in-type|impredicative-set)\b")
 
 
-def coq_scan_forbidden():
+def coq_scan_forbidden(only=None):
+    """Forbidden tokens in the development; with [only] (paths relative to /verif/coq)
+    restricted to those files (the dependency closure of a property's theorems)."""
     bad = []
     for root, _, files in os.walk(COQ):
         for f in files:
             if f.endswith(".v"):
                 p = os.path.join(root, f)
+                if only is not None and os.path.relpath(p, COQ) not in only:
+                    continue
                 txt = re.sub(r"\(\*.*?\*\)", "", open(p).read(), flags=re.S)
                 for m in FORBIDDEN.finditer(txt):
                     bad.append("%s: %s" % (os.path.relpath(p, VERIF), m.group(0)))
@@ -178,6 +182,7 @@ def coq_build(target_v):
             visit(d)
         order.append(v)
     visit(target_v)
+    coq_build.closure = getattr(coq_build, "closure", set()) | set(order)
     log = ""
     rebuilt = set()
     for v in order:
@@ -226,8 +231,9 @@ def coq_obligations(prop):
         details["files"][rel] = d
         total += len(names)
         done += len(names) if ok else 0
-    forb = coq_scan_forbidden()
+    forb = coq_scan_forbidden(getattr(coq_build, "closure", set()))
     details["forbidden_tokens"] = forb
+    details["files_scanned"] = sorted(getattr(coq_build, "closure", set()))
     if forb:
         done = 0
     return total, done, details, "cd /verif/coq && " + " && ".join(cmds) + \
